@@ -24,9 +24,13 @@ def main():
     lives = int(sys.argv[1]) if len(sys.argv) > 1 else 2
     same = len(sys.argv) > 2 and sys.argv[2].startswith('same')       # later lives = Deep.start() on the SAME agent object
     noreg = len(sys.argv) > 2 and sys.argv[2] == 'same_noreg'          # ... and nothing is registered in code
+    regonly = len(sys.argv) > 2 and sys.argv[2] == 'same_regonly'      # ... and the SERVICE has nothing for this client:
+    #                                                                    it answers 'no change' from the first poll on
     sent = []
 
     def poll(request):
+        if regonly:
+            return PollResponse(ts_nanos=1, current_hash=request.current_hash, response_type=ResponseType.NO_CHANGE)
         if request.current_hash == 'h1':
             return PollResponse(ts_nanos=1, current_hash='h1', response_type=ResponseType.NO_CHANGE)
         tp = TracePointConfig(ID='tp1', path=os.path.basename(path), line_number=marks['beat'],
@@ -54,6 +58,8 @@ def main():
                     d.task_handler.flush()
                     d.task_handler._open = True
                 expected, why = 2, 'the service tracepoint and the one registered in code during the first life'
+                if regonly:
+                    expected, why = 1, 'the tracepoint registered in code during the first life (the service has none)'
             with rec.LOCK:
                 rec.EVENTS.append({'ev': 'settled'})
             before = len(sent)
